@@ -345,7 +345,9 @@ def run_check(mod, prop, tier, seed):
         tb = traceback.format_exc()
         ctx.proof_problems.append('harness exception (correspondence could not be evaluated): ' + tb[-3000:])
     # 5. if the proof or the correspondence is broken and no failing input is known yet: search deeper
-    if (ctx.proof_problems or ctx.disagreements) and not ctx.failures and hasattr(mod, 'search'):
+    known_sigs = {k['signature'] for k in load_known() if k.get('property') == prop and k.get('kind') == 'known'}
+    unknown_failures = [f for f in ctx.failures if f['signature'] not in known_sigs]
+    if (ctx.proof_problems or ctx.disagreements) and not unknown_failures and hasattr(mod, 'search'):
         try:
             mod.search(ctx)
         except Exception:
